@@ -29,6 +29,12 @@ impl SwiftField for Field21NoOption {
         // Parse the reference with max length of 16
         let reference = parse_max_length(input, 16, "Field 21 reference")?;
 
+        if reference.is_empty() {
+            return Err(ParseError::InvalidFormat {
+                message: "Field 21 reference cannot be empty".to_string(),
+            });
+        }
+
         // Validate SWIFT character set
         parse_swift_chars(&reference, "Field 21 reference")?;
 
@@ -72,6 +78,12 @@ impl SwiftField for Field21C {
         Self: Sized,
     {
         let reference = parse_max_length(input, 35, "Field 21C reference")?;
+
+        if reference.is_empty() {
+            return Err(ParseError::InvalidFormat {
+                message: "Field 21C reference cannot be empty".to_string(),
+            });
+        }
         parse_swift_chars(&reference, "Field 21C reference")?;
 
         if reference.starts_with('/') || reference.ends_with('/') {
@@ -112,6 +124,12 @@ impl SwiftField for Field21D {
         Self: Sized,
     {
         let reference = parse_max_length(input, 35, "Field 21D reference")?;
+
+        if reference.is_empty() {
+            return Err(ParseError::InvalidFormat {
+                message: "Field 21D reference cannot be empty".to_string(),
+            });
+        }
         parse_swift_chars(&reference, "Field 21D reference")?;
 
         if reference.starts_with('/') || reference.ends_with('/') {
@@ -152,6 +170,12 @@ impl SwiftField for Field21E {
         Self: Sized,
     {
         let reference = parse_max_length(input, 35, "Field 21E reference")?;
+
+        if reference.is_empty() {
+            return Err(ParseError::InvalidFormat {
+                message: "Field 21E reference cannot be empty".to_string(),
+            });
+        }
         parse_swift_chars(&reference, "Field 21E reference")?;
 
         if reference.starts_with('/') || reference.ends_with('/') {
@@ -192,6 +216,12 @@ impl SwiftField for Field21F {
         Self: Sized,
     {
         let reference = parse_max_length(input, 16, "Field 21F reference")?;
+
+        if reference.is_empty() {
+            return Err(ParseError::InvalidFormat {
+                message: "Field 21F reference cannot be empty".to_string(),
+            });
+        }
         parse_swift_chars(&reference, "Field 21F reference")?;
 
         if reference.starts_with('/') || reference.ends_with('/') {
@@ -232,6 +262,12 @@ impl SwiftField for Field21R {
         Self: Sized,
     {
         let reference = parse_max_length(input, 16, "Field 21R reference")?;
+
+        if reference.is_empty() {
+            return Err(ParseError::InvalidFormat {
+                message: "Field 21R reference cannot be empty".to_string(),
+            });
+        }
         parse_swift_chars(&reference, "Field 21R reference")?;
 
         if reference.starts_with('/') || reference.ends_with('/') {
